@@ -543,7 +543,57 @@ def spell(program: List[List[Any]], rng: random.Random, canonical: bool = False)
     return [p.block(b) for b in program]
 
 
+def gen_chain_program(rng: random.Random) -> List[List[Any]]:
+    """Chains of single-use definitions, each folded into the next, where a later link names the whole amount as a
+    QUANTITY that only becomes inferable after the earlier links have been folded in (plus decoys)."""
+    g = ProgramGen(rng, max_blocks=1)
+    v, txt = gen_number(rng)
+    unit = rng.choice(["g", "kg", "ml", "l", "tsp", "cups", None, None])
+    q = {"q": [c.num_json(v), unit, rng.choice(["", " "]) if unit else "", rng.choice(["", " of"]) if unit else ""],
+         "explicit": False, "numtxt": txt}
+    base = [rng.choice(WORDS)]
+    stmts: List[Any] = [{"outs": [], "named": False, "expr": {"ref": base, "amt": q, "off": -1}, "out_offs": []}]
+    prev = base
+    n = rng.randrange(1, 5)
+    used = {g.key(base)}
+    for i in range(n):
+        nm = [f"{rng.choice(WORDS)} {i}"] if rng.random() < 0.8 else [rng.choice(WORDS) + " ", c.num_json(i + 2)]
+        while g.key(nm) in used:
+            nm = [nm[0] + "x"] + nm[1:]
+        used.add(g.key(nm))
+        kind = rng.random()
+        if kind < 0.45:
+            amt: Any = {"q": list(q["q"]), "explicit": False, "numtxt": q["numtxt"]}
+            conv = g.convert_quantity(q) if rng.random() < 0.4 else None
+            amt = conv or amt
+            if rng.random() < 0.15:      # a different quantity: must NOT fold
+                amt = {"q": [c.num_json(7), amt["q"][1], amt["q"][2], amt["q"][3]], "explicit": False, "numtxt": "7"}
+        elif kind < 0.7:
+            amt = None
+        elif kind < 0.85:
+            amt = {"p": [None, False, rng.choice(REMAINDERS[:4]), rng.choice(["", " of the"])], "numtxt": None}
+        else:
+            amt = {"p": [c.num_json(1.0), True, None, "%"], "numtxt": "100"}
+        e: Any = {"ref": prev, "amt": amt, "off": -1}
+        for _ in range(rng.randrange(0, 3)):
+            e = {"step": [rng.choice(STEPS)], "ins": [e], "short": rng.random() < 0.5}
+        if rng.random() < 0.3:
+            e = {"step": [rng.choice(STEPS)], "ins": [e, {"ref": ["water"], "amt": None, "off": -1}], "short": False}
+        last = i == n - 1
+        if last and rng.random() < 0.5:
+            stmts.append({"outs": [], "named": False, "expr": e, "out_offs": []})
+        else:
+            stmts.append({"outs": [nm], "named": rng.random() < 0.4, "expr": e, "out_offs": []})
+            prev = nm
+    if rng.random() < 0.3:   # a second use of some link: that link must stay unfolded
+        stmts.append({"outs": [], "named": False, "out_offs": [],
+                      "expr": {"step": ["top"], "ins": [{"ref": prev, "amt": None, "off": -1}], "short": False}})
+    return [stmts]
+
+
 def gen_program(rng: random.Random, **kw: Any) -> List[List[Any]]:
+    if not kw and rng.random() < 0.12:
+        return gen_chain_program(rng)
     return ProgramGen(rng, **kw).program()
 
 
